@@ -1867,6 +1867,10 @@ class ModelsOps:
                 if ar.exc.name == "AttributeError" and len(args) > 2:
                     return args[2]
                 raise
+        if name == "vars" and len(args) == 1 and isinstance(args[0], ClsV):
+            # the class's own namespace: what was stored on the class itself on this path
+            tid_ = self.st.tfind(args[0].tid)
+            return DictV([(StrV(a_), v_) for (t_, a_), v_ in self.st.cls_fields.items() if self.st.tfind(t_) == tid_])
         if name == "setattr" and len(args) == 3 and isinstance(args[1], StrV) and args[1].const is not None:
             self.set_attr(args[0], args[1].const, args[2], node)
             return NONE
